@@ -14,14 +14,15 @@ from common import frac, qtok, tokq, run_driver_parallel
 
 RULE = ("cases = every key of generators.GENERATORS (regenerated from the repository on every run) except 'convex' "
         "x n = 3..5 (quick) / 3..8 (thorough) x seeds {0, 1, 42, 2^32-1} + fresh 63-bit seeds from the run's PRNG. "
-        "Per case: (a) property oracle on the implementation alone: call succeeds, number_of_players, 2^n float64 finite values, "
-        "v(empty)=0, superadditive (+ monotone non-increasing for xos*/xs*/oxs/k_budget/covg keys) checked exactly with Fractions "
-        "(tolerance 1e-9*scale only when the table is not integral), identically seeded second call gives the identical table "
-        "(except the documented graph-distribution keys and predictible_factory); (b) correspondence: the same call is made with a "
-        "recording numpy Generator (subclass logging integers/uniform/random/permutation/choice; the matrix handed to "
-        "GraphCooperativeGame and the additive games of xos are captured by wrapping objects passed in / looked up by the call), "
-        "the logged draws converted exactly to Q are the arguments of the extracted Coq model of that registry entry, whose table must "
-        "equal get_values() (exact when integral, 1e-9 otherwise) and whose executable SA/monotone/support flags must be 1. "
+        "Per case: (a) property oracle on the implementation alone (two plain calls GENERATORS[key](n, default_rng(seed))): the call "
+        "succeeds, number_of_players, 2^n float64 finite values, v(empty)=0, superadditive (+ monotone non-increasing for "
+        "xos*/xs*/oxs/k_budget/covg keys) checked exactly with Fractions (tolerance 1e-9*scale only when the table is not integral), "
+        "the two identically seeded calls give the identical table (except the documented graph-distribution keys and "
+        "predictible_factory); (b) correspondence: a third call is made with a recording numpy Generator (subclass logging "
+        "integers/uniform/random/permutation/choice; the matrix handed to GraphCooperativeGame and the additive games of xos are "
+        "captured by wrapping objects passed in / looked up by the call; its table must equal the plain call's), the logged draws "
+        "converted exactly to Q are the arguments of the extracted Coq model of that registry entry, whose table must equal "
+        "get_values() (exact when integral, 1e-9 otherwise) and whose executable SA/monotone/support flags must be 1. "
         "distinct_nontrivial = distinct (key, n, value table) whose table is not constant.")
 TRUSTED = [
     "model of generators.py / graph_game.get_value: theories/Generators.v (hand-written, one function per family); tie = recorded-draw correspondence on every run",
@@ -431,7 +432,7 @@ def plan(ctx):
     """[(n, number of fresh seeds)], edge seeds are added for n <= 5."""
     if ctx.quick:
         return [(3, 2), (4, 1), (5, 1)]
-    return [(3, 8), (4, 6), (5, 4), (6, 3), (7, 2), (8, 1)]
+    return [(3, 20), (4, 14), (5, 10), (6, 6), (7, 3), (8, 2)]
 
 
 def seeds_for(ctx, n, fresh):
@@ -494,6 +495,8 @@ def run(ctx, proof):
     cases = []       # (key, idx, n, seed, desc, tab, line)
     seen_exc = set()
     skipped = []
+    unrecordable = []     # (replay, text): the call drew something the model has no argument for
+    recorder_diffs = []   # (replay, text): recorded call != plain call
     for n, fresh in plan(ctx):
         seeds = seeds_for(ctx, n, fresh)
         for idx, key in enumerate(keys):
@@ -507,8 +510,55 @@ def run(ctx, proof):
                 ctx.evaluations += 1
                 ctx.count("n", n)
                 ctx.count("family", desc["family"])
-                game, exc, rec = recorded_call(key, n, seed, desc)
                 rep = {"key": key, "n": n, "seed": seed, "registry_term": term, "command": replay_cmd(key, n, seed)}
+                # ---- (a) the property oracle, on plain calls only (nothing of the harness is passed in)
+                game1, exc1 = plain_call(key, n, seed)
+                tab1 = None
+                if exc1 is not None:
+                    ctx.count("outcome", "raises " + type(exc1).__name__)
+                    sig = (key, type(exc1).__name__)
+                    if sig not in seen_exc:
+                        seen_exc.add(sig)
+                        ctx.violation(f"GENERATORS['{key}']({n}, default_rng({seed})) raises {exc_summary(exc1)}; "
+                                      f"the property requires every offered generator to run for every n >= 3",
+                                      dict(rep, expected="a complete game", observed=exc_summary(exc1)),
+                                      found_input=True, key=known_key(key, exc1))
+                else:
+                    tab1, fails = game_table(game1, n)
+                    if tab1 is not None:
+                        tab1 = [0.0 if x == 0 else x for x in tab1]
+                        fails += class_oracle(tab1, n, mono)
+                    game2, exc2 = plain_call(key, n, seed)
+                    if exc2 is not None:
+                        fails.append(f"second identically seeded call raises {exc_summary(exc2)}")
+                    elif tab1 is not None:
+                        tab2, f2 = game_table(game2, n)
+                        if tab2 is None:
+                            fails += ["second call: " + x for x in f2]
+                        else:
+                            tab2 = [0.0 if x == 0 else x for x in tab2]
+                            f2 += class_oracle(tab2, n, mono)
+                            fails += ["second call: " + x for x in f2]
+                            if NONDET(key):
+                                ctx.count("determinism", "documented exception" + ("" if tab2 != tab1 else " (tables equal anyway)"))
+                            elif tab2 != tab1:
+                                d = next(i for i in range(len(tab1)) if tab1[i] != tab2[i])
+                                fails.append(f"identically seeded calls differ at coalition {d}: {tab1[d]} vs {tab2[d]}")
+                            else:
+                                ctx.count("determinism", "identical")
+                    if fails:
+                        ctx.count("outcome", "oracle-fails")
+                        ctx.violation(f"C10 oracle fails on GENERATORS['{key}']({n}, default_rng({seed})): {fails[:3]}",
+                                      dict(rep, expected="superadditive" + ("+monotone" if mono else "") + " complete float64 game, v(0)=0, seed-deterministic",
+                                           failures=fails[:6], values=tab1), found_input=True)
+                    else:
+                        ctx.count("outcome", "ok")
+                    if tab1 is not None:
+                        if any(x != tab1[0] for x in tab1):
+                            ctx.nontrivial.add((key, n, tuple(tab1)))
+                        ctx.count("table", "integral" if all(float(x).is_integer() for x in tab1) else "float")
+                # ---- (b) the recorded call for the correspondence
+                game, exc, rec = recorded_call(key, n, seed, desc)
                 notes = []
                 line = None
                 problems = []
@@ -516,68 +566,34 @@ def run(ctx, proof):
                     try:
                         line, problems = draws_line(key, n, desc, rec, exc, notes)
                     except Unrecordable as u:
-                        problems = []
-                        line = None
                         ctx.count("outcome", "unrecordable")
-                        ctx.violation(f"correspondence 'GENERATORS[{key}] draws only what the model of {term} takes as arguments' "
-                                      f"no longer holds: {u}", dict(rep, detail=str(u), log=[e[0] for e in rec.log][:20]),
-                                      found_input=False)
+                        unrecordable.append((dict(rep, detail=str(u), log=[e[0] for e in rec.log][:20]),
+                                             f"GENERATORS[{key}] draws only what the model of {term} takes as arguments: {u}"))
                 for m in notes:
                     m = "support excursion (not needed by the theorem): " + m
                     if m not in ctx.notes and len(ctx.notes) < 30:
                         ctx.notes.append(m)
-                if exc is not None:
-                    ctx.count("outcome", "raises " + type(exc).__name__)
-                    sig = (key, type(exc).__name__)
-                    if sig not in seen_exc:
-                        seen_exc.add(sig)
-                        ctx.violation(f"GENERATORS['{key}']({n}, default_rng({seed})) raises {exc_summary(exc)}; "
-                                      f"the property requires every offered generator to run for every n >= 3",
-                                      dict(rep, expected="a complete game", observed=exc_summary(exc),
-                                           draws=[(e[0], str(e[3])[:60]) for e in rec.log][:10]),
-                                      found_input=True, key=known_key(key, exc))
-                    cases.append((key, idx, n, seed, desc, None, line, exc))
-                    continue
-                tab, fails = game_table(game, n)
-                if tab is not None:
-                    tab = [0.0 if x == 0 else x for x in tab]
-                    fails += class_oracle(tab, n, mono)
-                # determinism: an identically seeded plain call (also shows the recorder is transparent)
-                game2, exc2 = plain_call(key, n, seed)
-                if exc2 is not None:
-                    fails.append(f"second identically seeded call raises {exc_summary(exc2)}")
-                elif tab is not None:
-                    tab2, f2 = game_table(game2, n)
-                    if tab2 is None:
-                        fails += ["second call: " + x for x in f2]
-                    else:
-                        tab2 = [0.0 if x == 0 else x for x in tab2]
-                        f2 += class_oracle(tab2, n, mono)
-                        fails += ["second call: " + x for x in f2]
-                        if NONDET(key):
-                            ctx.count("determinism", "documented exception" + ("" if tab2 != tab else " (tables equal anyway)"))
-                        elif tab2 != tab:
-                            d = next(i for i in range(len(tab)) if tab[i] != tab2[i])
-                            fails.append(f"identically seeded calls differ at coalition {d}: {tab[d]} vs {tab2[d]}")
-                        else:
-                            ctx.count("determinism", "identical")
-                if fails:
-                    ctx.count("outcome", "oracle-fails")
-                    ctx.violation(f"C10 oracle fails on GENERATORS['{key}']({n}, default_rng({seed})): {fails[:3]}",
-                                  dict(rep, expected="superadditive" + ("+monotone" if mono else "") + " complete float64 game, v(0)=0, seed-deterministic",
-                                       failures=fails[:6], values=tab), found_input=True)
-                else:
-                    ctx.count("outcome", "ok")
+                tab = None
+                if exc is None:
+                    tab, rfails = game_table(game, n)
+                    if tab is not None:
+                        tab = [0.0 if x == 0 else x for x in tab]
+                        rfails += class_oracle(tab, n, mono)
+                    if rfails and exc1 is None and NONDET(key):
+                        # a third, independent sample of a generator that ignores the seed: a genuine failing game
+                        ctx.violation(f"C10 oracle fails on GENERATORS['{key}']({n}, recording default_rng({seed})): {rfails[:3]}",
+                                      dict(rep, failures=rfails[:6], values=tab), found_input=True)
+                    if tab is not None and tab1 is not None and not NONDET(key) and tab != tab1:
+                        recorder_diffs.append((rep, f"the recorded call returns a different table than the plain call for {key} n={n} seed={seed}"))
+                if (exc is None) != (exc1 is None):
+                    recorder_diffs.append((rep, f"recorded call {'raises ' + exc_summary(exc) if exc else 'succeeds'} but the plain call "
+                                                f"{'raises ' + exc_summary(exc1) if exc1 else 'succeeds'} for {key} n={n} seed={seed}"))
                 if problems:
                     ctx.violation(f"draws of GENERATORS['{key}'] left the support the theorem of {term} assumes: {problems[:3]}",
-                                  dict(rep, problems=problems[:5]), found_input=bool(fails))
-                if tab is not None:
-                    if any(x != tab[0] for x in tab):
-                        ctx.nontrivial.add((key, n, tuple(tab)))
-                    ctx.count("table", "integral" if all(float(x).is_integer() for x in tab) else "float")
-                    ctx.sample({"key": key, "registry_term": term, "n": n, "seed": seed, "model_draws": (line or "")[:160],
-                                "values": tab[:8]}, limit=8)
-                cases.append((key, idx, n, seed, desc, tab, line, None))
+                                  dict(rep, problems=problems[:5]), found_input=False)
+                ctx.sample({"key": key, "registry_term": term, "n": n, "seed": seed, "model_draws": (line or "")[:160],
+                            "values": (tab or [])[:8]}, limit=8)
+                cases.append((key, idx, n, seed, desc, tab, line, exc))
 
     ctx.coverage["implementation_and_oracle_s"] = round(time.time() - t_start, 1)
     ctx.coverage["keys_checked"] = len(keys) - len(skipped)
@@ -586,8 +602,10 @@ def run(ctx, proof):
 
     # ---------------- correspondence with the extracted model
     todo = [c for c in cases if c[6] is not None]
+    pre = [(r, "recorder: " + t) for r, t in recorder_diffs] + [(r, t) for r, t in unrecordable]
     if not driver_ok:
         ctx.coverage["model_cases"] = 0
+        report_mismatches(ctx, pre)
         return
     t_model = time.time()
     try:
@@ -654,11 +672,16 @@ def run(ctx, proof):
             ctx.count("correspondence", "differs")
         else:
             ctx.count("correspondence", "equal-exact" if integral else "equal-1e-9")
+    report_mismatches(ctx, pre + mism)
+
+
+def report_mismatches(ctx, mism):
+    """A broken correspondence with no failing game found by the oracle (which ran on every call): one violation."""
     if mism and not any(v["found_input"] and v.get("key") is None for v in ctx.violations):
         rep, detail = mism[0]
         ctx.violation(f"correspondence 'get_values() of GENERATORS[key](n, rng) = Generators.v model of the registry entry on the recorded draws' "
                       f"no longer holds: {detail} ({len(mism)} disagreeing cases; the oracle found no failing game among "
-                      f"{ctx.evaluations} calls)", dict(rep, detail=detail, disagreeing_cases=len(mism),
+                      f"{ctx.evaluations} cases)", dict(rep, detail=detail, disagreeing_cases=len(mism),
                                                         other=[(m[0]["key"], m[0]["n"], m[1][:80]) for m in mism[1:6]]),
                       found_input=False)
 
